@@ -55,6 +55,13 @@ add("C05", "runinproc", "exploration", "bounded-exhaustive enumeration of direct
     "Every subset of a 10 (quick) / 12 (thorough) path pool x 22 patterns, expanded through parse -> file.New -> Run -> SpokFile.Globs twice; compared as sets of regular files with an independent matcher.",
     "The reference matcher is cross-checked against doublestar.Match on the pattern set; symlinks are not generated.", "DESIGN.md §4 C05")
 
+add("C04", "hashing", "exploration", "property-based testing with metamorphic relations (permutation, directory interleaving, GOMAXPROCS, CPU affinity) and a run-wide injectivity book, also under the race detector",
+    "Generated file sets over an adversarial 48-name universe with edit scripts: every reordering / interleaving / GOMAXPROCS / repetition agrees, and digest <-> canonical set of (abs path, content) stays a bijection over the whole run; child processes pinned to 1, 2, 4, 16 CPUs agree.",
+    "No digest format is assumed (relational oracles only). Worker interleavings are sampled, not enumerated. Lists with duplicate entries are only checked for determinism (don't-care otherwise).", "DESIGN.md §4 C04")
+add("C18", "hashing", "fault_enumeration", "fault injection by construction (missing, dangling, unreadable, vanishing entries at every position) + property-based list generation, race detector, goroutine accounting, crash/stall attribution to the list in flight",
+    "Every position of every faulty kind in every list of size <= 6 for GOMAXPROCS in {1,2,4,16}, repeated, also under -race; generated lists of size 0..4*NumCPU and 10^4 with duplicates: Hash returns (digest, nil) or (\"\", err), errors exactly when an entry cannot be opened, no crash, stall, race or leaked goroutine.",
+    "A crash or 20 s stall of the shard process is attributed to the list published in the shared-memory progress area and confirmed by a solo replay. Vanishing files may yield either outcome.", "DESIGN.md §4 C18")
+
 NOT_YET = {}
 
 def main():
